@@ -337,3 +337,19 @@ func (q PathQuery) Find() (*Witness, error) {
 	}
 	return nil, nil
 }
+
+// KnownIsNil reports whether the path decided that v (an interface or pointer value) is nil: some branch on the path
+// compared it - or, with phi operands resolved by the path, the value it is on this path - with nil.
+func (v *Valuation) KnownIsNil(x ssa.Value) (isNil, ok bool) {
+	t := v.term(x, 0)
+	if t.key == "nil" {
+		return true, true
+	}
+	if t.nonnil {
+		return false, true
+	}
+	ks := []string{t.key, "nil"}
+	sort.Strings(ks)
+	k, has := v.known["eq("+ks[0]+","+ks[1]+")"]
+	return k, has
+}
